@@ -1,0 +1,68 @@
+//go:build verif
+
+// Contracts for the console encoder (console_encoder.go), read by /verif/govc. Comment-only.
+//
+// A consoleEncoder embeds the jsonEncoder that accumulates its With-context (spaced). EncodeEntry
+// writes the metadata columns in a fixed order, then the context as one JSON object rendered by a
+// CLONE of that embedded encoder: the embedded encoder itself is never written by EncodeEntry.
+
+package zapcore
+
+//@ typeinv zapcore.consoleEncoder c: c.jsonEncoder != nil && fragInv(c.jsonEncoder) && _jsonPool != nil
+
+// The JSON object most recently written to a line buffer by writeContext.
+//@ ghost var jctx map(Ref, Bytes)
+
+// putSliceEncoder: the element list is truncated before the encoder goes back to the pool (C08).
+//@ func zapcore.putSliceEncoder
+//@   props C08 C16
+//@   flags nopanic
+//@   requires e != nil && _sliceEncoderPool != nil
+//@   modifies e.elems
+//@   ensures len(e.elems) == 0
+
+//@ func zapcore.getSliceEncoder
+//@   props C08 C16
+//@   flags nopanic
+//@   requires _sliceEncoderPool != nil
+//@   modifies nothing
+//@   ensures fresh(result) && len(result.elems) == 0
+
+// The deferred clean-up of writeContext: the context clone's buffer and the clone go back to
+// their pools (the clone reset field by field).
+//@ func (zapcore.consoleEncoder).writeContext$1
+//@   props C16 C08
+//@   flags nopanic
+//@   requires *context != nil && (*context).buf != nil && (*context).buf.pool.p != nil && _jsonPool != nil && ((*context).reflectBuf != nil ==> (*context).reflectBuf.pool.p != nil)
+//@   modifies fields(zapcore.jsonEncoder)
+//@   ensures only_changed(zapcore.jsonEncoder.EncoderConfig, *context) && only_changed(zapcore.jsonEncoder.buf, *context) && only_changed(zapcore.jsonEncoder.spaced, *context) && only_changed(zapcore.jsonEncoder.openNamespaces, *context) && only_changed(zapcore.jsonEncoder.reflectBuf, *context) && only_changed(zapcore.jsonEncoder.reflectEnc, *context)
+
+//@ func (zapcore.consoleEncoder).addSeparatorIfNecessary
+//@   props C16
+//@   flags nopanic
+//@   requires line != nil && c.jsonEncoder != nil && c.jsonEncoder.EncoderConfig != nil
+//@   modifies line.bs, comp(E:uint8)
+//@   ensures old(len(line.bs)) == 0 ==> line.bs == old(line.bs)
+//@   ensures old(len(line.bs)) > 0 ==> seq(line.bs) == cat(old(seq(line.bs)), c.jsonEncoder.EncoderConfig.ConsoleSeparator)
+//@   ensures elems_frame(type(uint8), old(line.bs))
+//@   ensures arr(line.bs) == old(arr(line.bs)) || fresh(line.bs)
+
+// writeContext (C16, C07): nothing is appended when there is neither context nor a call-site
+// field; otherwise the separator (if the line is non-empty) and exactly one well-formed JSON
+// object - the context followed by the call-site fields, every namespace closed. The embedded
+// encoder that holds the logger's context is not modified: the fields go to a clone.
+//@ func (zapcore.consoleEncoder).writeContext
+//@   props C16 C07 C08
+//@   flags nopanic propagates-panics
+//@   requires line != nil && c.jsonEncoder != nil && fragInv(c.jsonEncoder) && _jsonPool != nil
+//@   requires forall i int :: 0 <= i && i < len(extra) ==> wfEnc(extra[i])
+//@   assumes arr(line.bs) == nil || root(arr(line.bs)) != root(arr(c.jsonEncoder.buf.bs))
+//@   ghost-at call 1 of (*buffer.Buffer).Write before jctx[line] = cat("{", seq(context.buf.bs), "}")
+//@   stepinv *c.jsonEncoder == old(*c.jsonEncoder) && c.jsonEncoder.buf.bs == old(c.jsonEncoder.buf.bs)
+//@   stepinv seq(c.jsonEncoder.buf.bs) == old(seq(c.jsonEncoder.buf.bs))
+//@   stepinv !was_allocated(context) && (context.buf != nil ==> !was_allocated(context.buf) && (arr(context.buf.bs) == nil || !was_allocated(arr(context.buf.bs))) && jstart[context.buf] == JFrag0 && jbase[context] == SObj1 && context.buf.pool.p != nil)
+//@   stepinv context.reflectBuf != nil ==> !was_allocated(context.reflectBuf) && (arr(context.reflectBuf.bs) == nil || !was_allocated(arr(context.reflectBuf.bs)))
+//@   modifies $user, line.bs, comp(E:uint8), fields(zapcore.jsonEncoder), buffer.Buffer.bs
+//@   ensures *c.jsonEncoder == old(*c.jsonEncoder) && c.jsonEncoder.buf.bs == old(c.jsonEncoder.buf.bs) && seq(c.jsonEncoder.buf.bs) == old(seq(c.jsonEncoder.buf.bs))
+//@   ensures len(line.bs) == old(len(line.bs)) ==> line.bs == old(line.bs)
+//@   ensures len(line.bs) != old(len(line.bs)) ==> seq(line.bs) == cat(old(seq(line.bs)), (old(len(line.bs)) > 0 ? c.jsonEncoder.EncoderConfig.ConsoleSeparator : ""), jctx[line]) && jsonDone(jrun(J0, jctx[line]))
